@@ -935,6 +935,17 @@ def run(program, rep, tier):
     c01.check_fresh_id(program, rep)
     for o in rep.obs[n0:]:
         o.rule = 'C15.ids'
+    # the components / processors a description lists are registered by the
+    # mapping their class declares: a handler class defined for the project
+    # (decorated subclass) must not change the mapping of the library classes
+    # the description also instantiates (the C03 mapping rule)
+    from rules import c03
+    rep.borrow(c03.check_mapping, program, rep,
+               keep=lambda o: o.rule == 'C03.mapping',
+               rename=lambda r: 'C15.mapping',
+               why='a listed component of a library class ends up declaring '
+               'events of an unrelated decorated subclass: create_entity '
+               'raises AttributeError while the world is being loaded')
     # once enabled, the postponed on_add / on_world_load are released once
     # and in order (the C04 release rules)
     from rules import c04, lifecycle
